@@ -74,6 +74,15 @@ static void observe(const sk_t& s, Out& o) {
   }
 }
 
+static double call_getter(const un_t& u, int g) {
+  switch (g) {
+  case 0: return u.get_estimate();
+  case 1: return u.get_composite_estimate();
+  case 2: case 3: case 4: return u.get_lower_bound((uint8_t)(g - 1));
+  default: return u.get_upper_bound((uint8_t)(g - 4));
+  }
+}
+
 static void handler(const Line& t, Out& o) {
   switch ((int)t.at(0)) {
   case 1: { // new sketch: 1 r lgk ty full
@@ -141,6 +150,19 @@ static void handler(const Line& t, Out& o) {
     un_t& u = getu(t.at(1));
     std::unique_ptr<sk_t> p(new sk_t(u.get_result(ty_of(t.at(3)))));
     regs[(long)t.at(2)] = std::move(p);
+    o.R(1); break; }
+  case 19: { // every estimator entry point of the union, called FIRST on a fresh copy and called LAST (after all the
+             // others) on another fresh copy: 19 u  -> F first_0 after_0 ... first_7 after_7
+             // (0 get_estimate, 1 get_composite_estimate, 2..4 get_lower_bound(1..3), 5..7 get_upper_bound(1..3))
+    un_t& u = getu(t.at(1));
+    for (int g = 0; g < 8; ++g) {
+      un_t c1(u);
+      double first = call_getter(c1, g);
+      un_t c2(u);
+      for (int h = 0; h < 8; ++h) if (h != g) (void)call_getter(c2, h);
+      double after = call_getter(c2, g);
+      o.Fd(first); o.Fd(after);
+    }
     o.R(1); break; }
   default: o.R(-2);
   }
